@@ -447,6 +447,31 @@ def d3(ctx: Ctx):
     ctx.ob("mgetoppm.c2r:len", len(vals) == 64, "" if len(vals) == 64 else f"c2r has {len(vals)} entries for 64 composite codes", file=DECODERS["mgetoppm"], line=c2r.lineno)
     okr = all(isinstance(v, int) and 0 <= v < 64 for v in vals)
     ctx.ob("mgetoppm.c2r:range", okr, "" if okr else "c2r holds values outside 0..63", file=DECODERS["mgetoppm"], line=c2r.lineno)
+    # the composite table is applied to every palette entry: an in-place loop covers 0..15, a rebuilt list maps each entry
+    mf = D.fn("mgetoppm", "convert")
+    pname_ = _palette_name(mf)
+    applied = []
+    for n in ast.walk(mf):
+        if isinstance(n, ast.For) and isinstance(n.target, ast.Name):
+            for a_ in ast.walk(n):
+                if isinstance(a_, ast.Assign) and isinstance(a_.targets[0], ast.Subscript) and isinstance(a_.targets[0].value, ast.Name) and a_.targets[0].value.id == pname_ and isinstance(a_.targets[0].slice, ast.Name) and a_.targets[0].slice.id == n.target.id and isinstance(a_.value, ast.Subscript) and isinstance(a_.value.value, ast.Name) and a_.value.value.id == c2r.targets[0].id:
+                    rng = None
+                    if isinstance(n.iter, ast.Call) and call_name(n.iter) == "range" and 1 <= len(n.iter.args) <= 2 and all(isinstance(x, ast.Constant) and isinstance(x.value, int) for x in n.iter.args):
+                        vs_ = [x.value for x in n.iter.args]
+                        rng = (0, vs_[0]) if len(vs_) == 1 else (vs_[0], vs_[1])
+                    elif isinstance(n.iter, ast.Call) and call_name(n.iter) == "range" and len(n.iter.args) == 1 and isinstance(n.iter.args[0], ast.Call) and call_name(n.iter.args[0]) == "len" and unparse(n.iter.args[0].args[0]) == pname_:
+                        rng = (0, 16)
+                    applied.append((n.lineno, rng))
+        elif isinstance(n, (ast.ListComp, ast.GeneratorExp)) and len(n.generators) == 1 and isinstance(n.generators[0].iter, ast.Name) and n.generators[0].iter.id == pname_ and not n.generators[0].ifs and isinstance(n.elt, ast.Subscript) and isinstance(n.elt.value, ast.Name) and n.elt.value.id == c2r.targets[0].id:
+            applied.append((n.lineno, (0, 16)))
+    if not applied:
+        ctx.undecided("mgetoppm.c2r:applied-to-all", "the place where the composite table is applied to the palette was not recognised", file=DECODERS["mgetoppm"], line=c2r.lineno, props=["C16"])
+    for ln_, rng in applied:
+        if rng is None:
+            ctx.undecided("mgetoppm.c2r:applied-to-all", "the range of the conversion loop is not constant", file=DECODERS["mgetoppm"], line=ln_, props=["C16"])
+        else:
+            oka_ = rng == (0, 16)
+            ctx.ob("mgetoppm.c2r:applied-to-all", oka_, "" if oka_ else f"composite codes are converted for palette entries {rng[0]}..{rng[1] - 1} only: the other entries keep their composite code and are shown with the RGB meaning of that number", file=DECODERS["mgetoppm"], line=ln_, props=["C16"])
     # palettes are read as 16 entries wherever nibbles (0..15) index them
     for dec in ("hrstoppm", "mgetoppm", "cm3toppm", "rattoppm"):
         f = D.fn(dec, "convert")
@@ -458,8 +483,46 @@ def d3(ctx: Ctx):
         pal = next((n for n in ast.walk(f) if isinstance(n, ast.Assign) and isinstance(n.targets[0], ast.Name) and n.targets[0].id == _palette_name(f)), None)
         ctx.need(pal is not None, f"{dec}.palette", "palette read not found")
         src = unparse(pal.value)
-        ok = "read(16)" in src or "range(16)" in src
-        ctx.ob(f"{dec}.palette:16", ok, "" if ok else f"palette is read as `{src}`, pixel values index 16 entries", file=DECODERS[dec], line=pal.lineno)
+        n_ = _seq_len(pal.value)
+        ctx.idiom(f"{dec}.palette:16", n_ is not None, n_ == 16, "" if n_ == 16 else f"palette is read as `{src}` ({n_} entries), pixel values index 16 entries", file=DECODERS[dec], line=pal.lineno)
+
+
+def _seq_len(e: ast.AST) -> Optional[int]:
+    """Number of elements of a sequence expression built from a fixed-size read or a constant range (None: not of that shape)."""
+    from .decoders import IntEvalError, int_eval
+
+    def const(x):
+        try:
+            v = int_eval(x, {})
+        except (IntEvalError, Exception):
+            return None
+        return v if isinstance(v, int) and not isinstance(v, bool) else None
+
+    if isinstance(e, ast.Call):
+        nm = call_name(e)
+        if nm in ("iotostr", "list", "tuple", "bytes", "bytearray", "strtoio", "reversed", "sorted") and len(e.args) == 1 and not e.keywords:
+            return _seq_len(e.args[0])
+        if nm == "read" and isinstance(e.func, ast.Attribute) and len(e.args) == 1:
+            return const(e.args[0])
+        if nm == "range" and 1 <= len(e.args) <= 2 and not e.keywords:
+            vs = [const(a) for a in e.args]
+            if None in vs:
+                return None
+            return max(0, vs[0] if len(vs) == 1 else vs[1] - vs[0])
+        if nm == "unpack" and len(e.args) == 2 and isinstance(e.args[0], ast.Constant) and isinstance(e.args[0].value, str):
+            m = re.fullmatch(r"[<>=!@]?(\d*)B", e.args[0].value)
+            return int(m.group(1) or 1) if m else None
+        return None
+    if isinstance(e, (ast.ListComp, ast.GeneratorExp)) and len(e.generators) == 1 and not e.generators[0].ifs:
+        return _seq_len(e.generators[0].iter)
+    if isinstance(e, (ast.List, ast.Tuple)) and not any(isinstance(x, ast.Starred) for x in e.elts):
+        return len(e.elts)
+    if isinstance(e, ast.BinOp) and isinstance(e.op, ast.Mult):
+        for a, b in ((e.left, e.right), (e.right, e.left)):
+            la, cb = _seq_len(a), const(b)
+            if la is not None and cb is not None:
+                return la * max(cb, 0)
+    return None
 
 
 def _max_value(e: ast.AST, env: Dict[str, int]) -> int:
@@ -666,15 +729,52 @@ def _read_call(e: ast.AST) -> Optional[ast.Call]:
 
 
 def _header_write(fn: ast.FunctionDef) -> Optional[Tuple[ast.Call, str, List[ast.AST]]]:
+    """The write of the PPM/PGM header: (call, text with `{}` for every inserted value, the inserted expressions in text order).
+    `"..{} {}..".format(w, h)`, numbered fields (`{0} {0}`), and f-strings read the same."""
+    import string
+
     for n in ast.walk(fn):
         if isinstance(n, ast.Call) and call_name(n) == "write" and n.args:
+            for c in ast.walk(n.args[0]):
+                if isinstance(c, ast.JoinedStr) and c.values and isinstance(c.values[0], ast.Constant) and re.match(r"P[56]\n", str(c.values[0].value)):
+                    fmt, args = "", []
+                    for v in c.values:
+                        if isinstance(v, ast.Constant):
+                            fmt += str(v.value)
+                        elif isinstance(v, ast.FormattedValue) and v.conversion == -1 and v.format_spec is None:
+                            fmt += "{}"
+                            args.append(v.value)
+                        else:
+                            fmt += "{?}"
+                    return n, fmt, args
             for c in ast.walk(n.args[0]):
                 if isinstance(c, ast.Constant) and isinstance(c.value, str) and re.match(r"P[56]\n", c.value):
                     fmt = c.value
                     args: List[ast.AST] = []
                     for f in ast.walk(n.args[0]):
-                        if isinstance(f, ast.Call) and call_name(f) == "format":
+                        if isinstance(f, ast.Call) and call_name(f) == "format" and isinstance(f.func, ast.Attribute) and f.func.value is c:
                             args = list(f.args)
+                            try:
+                                parts = list(string.Formatter().parse(fmt))
+                            except ValueError:
+                                return n, fmt, args
+                            if all(fld is None or ((fld == "" or fld.isdigit()) and not spec and conv is None) for _, fld, spec, conv in parts) and not f.keywords:
+                                out, ordered, auto = "", [], 0
+                                okx = True
+                                for lit, fld, spec, conv in parts:
+                                    out += lit
+                                    if fld is None:
+                                        continue
+                                    idx = auto if fld == "" else int(fld)
+                                    if fld == "":
+                                        auto += 1
+                                    if idx >= len(args):
+                                        okx = False
+                                        break
+                                    out += "{}"
+                                    ordered.append(args[idx])
+                                if okx:
+                                    fmt, args = out, ordered
                     return n, fmt, args
     return None
 
@@ -1461,6 +1561,65 @@ def d12(ctx: Ctx):
                 per_byte = 2 if ncol == 16 else 4
                 okd = covered.get(tk) == per_byte
                 ctx.ob(f"veftopng.unpack:type{tk}", okd, "" if okd else f"screen type {tk} ({ncol} colours) needs {per_byte} pixels unpacked from every byte; the unpacking branch selected for it appends {covered.get(tk)}: pictures of that type come out empty or with the wrong pixel count", file=rel, line=st.lineno, props=["C16", "C18"])
+    # per type: the post-write resize and the number of squashed records, evaluated with that type's own values
+    if all(k in named for k in ks) and len({tuple(sorted(named[k])) for k in ks}) == 1:
+        from .decoders import IntEvalError, int_eval
+
+        cols = {v: tuple(named[k][v] for k in ks) for v in named[ks[0]]}
+        by_col = {i: next((v for v, c in cols.items() if c == tuple(VEF_TYPES[k][i] for k in ks)), None) for i in range(5)}
+        wv, hv, cv, lv = by_col[0], by_col[1], by_col[2], by_col[3]
+        rz = [n for n in ast.walk(st) if isinstance(n, ast.Call) and isinstance(n.func, ast.Attribute) and n.func.attr == "resize" and n.args and isinstance(n.args[0], ast.Tuple) and len(n.args[0].elts) == 2]
+        if wv and hv and len(rz) == 1:
+            guards = [n.test for n in ast.walk(st) if isinstance(n, ast.If) and any(x is rz[0] for b in n.body for x in ast.walk(b))]
+            for k in ks:
+                env = dict(named[k])
+                try:
+                    on = all(bool(int_eval(g_, env)) for g_ in guards)
+                    size = tuple(int_eval(e_, env) for e_ in rz[0].args[0].elts) if on else None
+                except IntEvalError as ex:
+                    ctx.undecided(f"veftopng.resize:type{k}", f"the resize step is not evaluable for this type ({ex})", file=rel, line=rz[0].lineno, props=["C18", "C16"])
+                    continue
+                w_, h_ = env[wv], env[hv]
+                okz = size is None or (w_ == 640 and size == (w_, 2 * h_))
+                ctx.ob(f"veftopng.resize:type{k}", okz, "" if okz else f"a type-{k} picture ({w_}x{h_}) is resized to {size} after it was written: only the 640-wide modes are stretched (to 640x{2 * h_}, the aspect correction); every pixel of this one lands elsewhere and the file no longer has the announced size", file=rel, line=rz[0].lineno, props=["C18", "C16"])
+        elif rz:
+            ctx.undecided("veftopng.resize", "more than one resize step / geometry names not recognised", file=rel, line=rz[0].lineno, props=["C18", "C16"])
+        # squashed files: one record per `record length` bytes of the picture, whatever the type
+        sq = [n for n in ast.walk(st) if isinstance(n, (ast.While, ast.For)) and any(isinstance(c, ast.Call) and call_name(c) == "unsquash" for b in n.body for c in ast.walk(b))]
+        if wv and hv and cv and lv and len(sq) == 1:
+            lp = sq[0]
+            bound = None
+            if isinstance(lp, ast.While) and isinstance(lp.test, ast.Compare) and len(lp.test.ops) == 1 and isinstance(lp.test.ops[0], ast.Lt) and isinstance(lp.test.left, ast.Name):
+                iv = lp.test.left.id
+                steps = [n for n in ast.walk(lp) if isinstance(n, ast.AugAssign) and isinstance(n.target, ast.Name) and n.target.id == iv]
+                inits = [n for n in ast.walk(st) if isinstance(n, ast.Assign) and len(n.targets) == 1 and isinstance(n.targets[0], ast.Name) and n.targets[0].id == iv and n.lineno < lp.lineno]
+                if len(steps) == 1 and isinstance(steps[0].op, ast.Add) and isinstance(steps[0].value, ast.Constant) and steps[0].value.value == 1 and inits and isinstance(inits[-1].value, ast.Constant) and inits[-1].value.value == 0:
+                    bound = lp.test.comparators[0]
+            elif isinstance(lp, ast.For) and isinstance(lp.iter, ast.Call) and call_name(lp.iter) == "range" and len(lp.iter.args) == 1:
+                bound = lp.iter.args[0]
+            if bound is None:
+                ctx.undecided("veftopng.records", "the loop over the squashed records is not a plain counting loop", file=rel, line=lp.lineno, props=["C17"])
+            else:
+                # names assigned once before the loop from the type's values may appear in the bound
+                for k in ks:
+                    env = dict(named[k])
+                    for a_ in ast.walk(st):
+                        if isinstance(a_, ast.Assign) and len(a_.targets) == 1 and isinstance(a_.targets[0], ast.Name) and a_.targets[0].id not in env and a_.lineno < lp.lineno:
+                            try:
+                                env[a_.targets[0].id] = int_eval(a_.value, env)
+                            except IntEvalError:
+                                pass
+                    try:
+                        nrec = int_eval(bound, env)
+                    except IntEvalError as ex:
+                        ctx.undecided(f"veftopng.records:type{k}", f"the record count is not evaluable ({ex})", file=rel, line=lp.lineno, props=["C17"])
+                        continue
+                    bits = {2: 1, 4: 2, 16: 4}.get(env[cv])
+                    if bits is None or env[lv] <= 0:
+                        continue
+                    want_n = env[wv] * env[hv] * bits // 8 // env[lv]
+                    okn = nrec == want_n
+                    ctx.ob(f"veftopng.records:type{k}", okn, "" if okn else f"a squashed type-{k} picture ({env[wv]}x{env[hv]}, {env[cv]} colours, records of {env[lv]} bytes) consists of {want_n} records; the loop reads {nrec}", file=rel, line=lp.lineno, props=["C17", "C19"])
     # palette = bytes 2..17, image data from byte 18
     from .pyast import ast_contains as _ac
 
@@ -1592,7 +1751,14 @@ def d9(ctx: Ctx):
         ctx.need(call is not None, f"{dec}.start", "call of convert() not found")
         params = [a.arg for a in cf.args.args]
         dests = _dests(st)
-        for i, (p, a) in enumerate(zip(params, call.args)):
+        # positional and keyword arguments alike: parameter -> expression
+        bound = dict(zip(params, call.args))
+        extra_kw = [k.arg for k in call.keywords if k.arg is not None and (k.arg not in params or k.arg in bound)]
+        for k in call.keywords:
+            if k.arg is not None and k.arg in params and k.arg not in bound:
+                bound[k.arg] = k.value
+        splat = any(isinstance(a, ast.Starred) for a in call.args) or any(k.arg is None for k in call.keywords)
+        for p, a in bound.items():
             src = unparse(a)
             m = re.fullmatch(r"args\.(\w+)", src)
             if not m:
@@ -1600,7 +1766,10 @@ def d9(ctx: Ctx):
             want = {"input_image_stream": "input_image", "output_image_stream": "output_image", "cols": "width", "arte": "pixel_mode", "height": "rows"}.get(p, p)
             ok = m.group(1) == want
             ctx.ob(f"{dec}.convert({p})", ok, "" if ok else f"parameter `{p}` of convert() receives args.{m.group(1)}", file=rel, line=call.lineno)
-        ctx.ob(f"{dec}.convert:arity", len(call.args) == len(params), "" if len(call.args) == len(params) else "convert() is called with a different number of arguments than it declares", file=rel, line=call.lineno)
+        n_defaults = len(cf.args.defaults)
+        required = params[: len(params) - n_defaults] if n_defaults else params
+        oka = not extra_kw and len(call.args) <= len(params) and all(p in bound for p in required)
+        ctx.idiom(f"{dec}.convert:arity", not splat, oka, "" if oka else f"convert() is called with arguments that do not match its parameters {params} (given: {len(call.args)} positional, keywords {[k.arg for k in call.keywords]})", file=rel, line=call.lineno)
         # option validators
         for n in ast.walk(st):
             if isinstance(n, ast.Call) and call_name(n) == "add_argument" and n.args and isinstance(n.args[0], ast.Constant) and n.args[0].value in ("-w", "-r", "-s"):
@@ -1858,3 +2027,71 @@ def d17(ctx: Ctx):
             a = calls[0].args[0] if calls[0].args else None
             ok = a is not None and unparse(a).replace(" ", "") == "sys.argv[1:]"
             ctx.ob(f"{rel.split('/')[-1]}:main", ok, "" if ok else f"main() calls `{unparse(calls[0])}`: the command line handed to the option parser is not `sys.argv[1:]` (the program name is parsed as an argument, or the first argument is dropped)", file=rel, line=f.lineno, props=["C11"] if rel.endswith("decb_to_b09.py") else ["C18"])
+
+
+# ---------------------------------------------------------------------------
+# D18 GROUP-READS
+
+
+def _fallthrough_read_totals(stmts: List[ast.stmt]) -> Optional[Set[int]]:
+    """Bytes read from the stream along every path that falls through the statements (None: not countable)."""
+    totals: Set[int] = {0}
+    for st in stmts:
+        if isinstance(st, (ast.Break, ast.Continue, ast.Return, ast.Raise)):
+            return set()
+        if isinstance(st, ast.If):
+            here = 0
+            for c in ast.walk(st.test):
+                if isinstance(c, ast.Call) and call_name(c) == "read":
+                    return None
+            a = _fallthrough_read_totals(st.body)
+            b = _fallthrough_read_totals(st.orelse) if st.orelse else {0}
+            if a is None or b is None:
+                return None
+            nxt = a | b
+            totals = {t + k for t in totals for k in nxt}
+            if not totals:
+                return set()
+            continue
+        if isinstance(st, (ast.For, ast.While, ast.With, ast.Try, ast.FunctionDef)):
+            if any(isinstance(c, ast.Call) and call_name(c) == "read" for c in ast.walk(st)):
+                return None
+            continue
+        k = 0
+        for c in ast.walk(st):
+            if isinstance(c, ast.Call) and call_name(c) == "read" and isinstance(c.func, ast.Attribute):
+                if len(c.args) == 1 and isinstance(c.args[0], ast.Constant) and isinstance(c.args[0].value, int):
+                    k += c.args[0].value
+                else:
+                    return None
+        totals = {t + k for t in totals}
+    return totals
+
+
+@rule("D18", "GROUP-READS: inside a run-length decoding loop, the branch that handles one kind of group consumes the same number of stream bytes on every path that goes on to the repeat", ["C17"], floor=1)
+def d18(ctx: Ctx):
+    D = decoderfacts(ctx)
+    n_sites = 0
+    for dec in ("rattoppm", "mgetoppm"):
+        fn = D.fn(dec, "convert")
+        rel = DECODERS[dec]
+        for lp in [n for n in ast.walk(fn) if isinstance(n, ast.While)]:
+            # a decoding round: reads a byte, later repeats an output `for .. in range(<read value>)`
+            has_repeat = any(isinstance(x, ast.For) and isinstance(x.iter, ast.Call) and call_name(x.iter) == "range" and any(isinstance(c, ast.Call) and call_name(c) not in ("range",) for b in x.body for c in ast.walk(b)) for x in lp.body)
+            if not has_repeat or not any(isinstance(c, ast.Call) and call_name(c) == "read" for c in ast.walk(lp)):
+                continue
+            for st in lp.body:
+                if not isinstance(st, ast.If):
+                    continue
+                for arm_name, arm in (("then", st.body), ("else", st.orelse)):
+                    if not arm or not any(isinstance(c, ast.Call) and call_name(c) == "read" for s_ in arm for c in ast.walk(s_)):
+                        continue
+                    n_sites += 1
+                    tot = _fallthrough_read_totals(arm)
+                    key = f"{dec}.convert:`{unparse(st.test)}`:{arm_name}"
+                    if tot is None:
+                        ctx.undecided(key, "the bytes read in this branch cannot be counted path by path", file=rel, line=st.lineno)
+                        continue
+                    ok = len(tot) <= 1
+                    ctx.ob(key, ok, "" if ok else f"the branch taken when `{unparse(st.test)}` is {'true' if arm_name == 'then' else 'false'} consumes {sorted(tot)} bytes depending on the data before it reaches the repeat: a group of this kind has one fixed layout (count byte, value byte); the shorter path re-reads part of the group as the next group", file=rel, line=st.lineno)
+    ctx.need(n_sites >= 1, "decoders", "no run-length branch that reads group bytes found (expected RAT's escape branch)")
